@@ -290,6 +290,26 @@ def run(report, tier, seed, driver, proofs_ok):
                 model=driver.run([{"op": "glob", "p": sp, "s": ss, "ci": ci}])[0],
                 oracle="Glob.gmatch is proved equal to the glob language (C08_sound_complete); the implementation differs on this single-line input",
             )
+    # the expander is the matcher applied to the catalogue: every shortcut it takes must agree with the matcher proved above
+    from pycfmodel.action_expander import _expand_action
+    from pycfmodel.cloudformation_actions import CLOUDFORMATION_ACTIONS
+    from pycfmodel.utils import regex_from_cf_string
+
+    from .. import gen
+
+    for i in range(120 if thorough else 30):
+        pat = gen.gen_pattern(rng)
+        try:
+            rx = regex_from_cf_string(pat)
+            want = sorted({a for a in CLOUDFORMATION_ACTIONS if rx.match(a)})
+            got = _expand_action(pat)
+        except Exception as e:
+            report.violation("oracle", "expansion-or-pattern-raises-" + common.exc_class(e), op={"pattern": pat})
+            continue
+        report.count("expander-against-matcher")
+        if got != want:
+            report.violation("oracle", "expander-disagrees-with-the-matcher", op={"pattern": pat}, impl={"expanded": len(got), "matched": len(want), "only_matched": [a for a in want if a not in got][:3], "only_expanded": [a for a in got if a not in want][:3]},
+                             oracle="_expand_action(p) = the catalogue entries regex_from_cf_string(p) matches (C08_sound_complete lifts to C09_expand_mem)")
     report.notes += [
         "single-line text only (no \\n, \\r, U+0085, U+2028, U+2029): Python's `$` and `.` treat line ends specially and the property is stated for single-line text",
         "case-insensitive route restricted to text whose non-ASCII characters are uncased (AsciiCase); Python's re engine is trusted",
